@@ -151,7 +151,11 @@ func (s String) Less(v Value) bool {
 		return s.Kind() < v.Kind()
 	}
 
-	return s.String() < v.(String).String()
+	t := v.(String)
+	if s.offset != t.offset {
+		return s.offset < t.offset
+	}
+	return s.String() < t.String()
 }
 
 // Negate returns {(negateTag): s}.
